@@ -31,6 +31,7 @@ pub struct lol_html_source_location_bytes_t {
     pub end: size_t,
 }
 
+#[derive(Clone, Copy)]
 #[repr(C)]
 pub struct lol_html_memory_settings_t {
     pub preallocated_parsing_buffer_size: size_t,
@@ -169,6 +170,10 @@ pub struct CVariant {
     /// ignore such a failure); the error reported by a later failing write()/end() must still be
     /// that call's own
     pub ignore_setter_errors: bool,
+    /// 1: build a first rewriter from the builder and free it unused, then build the one that is
+    /// driven ("can be called multiple times to construct different rewriters from the same
+    /// builder"); 2: a first build with an unknown encoding label fails, then the real build
+    pub rebuild: u8,
 }
 
 struct World {
@@ -737,6 +742,25 @@ pub fn run(sc: &Scenario, v: CVariant) -> Result<CRun, String> {
             graceful_bail_out_on_memory_limit_exceeded: sc.graceful_mem,
         };
         let enc = sc.encoding.as_bytes();
+        if v.rebuild == 1 {
+            let first = lol_html_rewriter_build(b, enc.as_ptr().cast(), enc.len(), mem, sink_cb, world.cast(), sc.strict);
+            if first.is_null() {
+                let _ = last_error(w);
+            } else {
+                lol_html_rewriter_free(first);
+            }
+        } else if v.rebuild == 2 {
+            let bad = b"no-such-encoding-label";
+            let first = lol_html_rewriter_build(b, bad.as_ptr().cast(), bad.len(), mem, sink_cb, world.cast(), sc.strict);
+            if first.is_null() {
+                if last_error(w).is_none() {
+                    w.codes_problem = Some("build with an unknown encoding returned NULL without a last error".into());
+                }
+            } else {
+                w.codes_problem = Some("build with an unknown encoding label succeeded".into());
+                lol_html_rewriter_free(first);
+            }
+        }
         let rw = if sc.esi {
             unstable_lol_html_rewriter_build_with_esi_tags(b, enc.as_ptr().cast(), enc.len(), mem, sink_cb, world.cast(), sc.strict)
         } else {
